@@ -59,29 +59,7 @@ func judgeC09Script(c *SrvCase, obs *SrvObs, o *Outcome) {
 	if negotiated {
 		o.Class("negotiation-stage")
 	}
-	// cleartext glued behind the choice that switched the connection to tls must not be acted upon: everything after the
-	// confirmation travels under the negotiated encryption
-	m := RunServerModel(c, observedNegotiation(obs))
-	for _, gi := range m.GluedDropped {
-		o.Class("cleartext-glued-to-tls-choice")
-		o.NonTrivial = true
-		g := &c.Script[gi]
-		ps, pc := presented(g)
-		laterSame := false
-		for j := gi + 1; j < len(c.Script); j++ {
-			if qs, qc := presented(&c.Script[j]); c.Script[j].Kind == "session" && c.Script[j].State == "authenticating" && qs == ps && qc == pc {
-				laterSame = true // the same credentials also travel under TLS later: a callback for them proves nothing
-			}
-		}
-		if laterSame || !obs.PeerTLS {
-			continue
-		}
-		for _, e := range obs.Log {
-			if e.Call == "auth" && e.Scheme == ps && e.Cred == pc {
-				o.Fail("C09/cleartext-acted-upon-after-tls-confirmation", "the peer wrote credentials (%s,%q) in cleartext in the same write as its choice of tls and never sent them under TLS, yet Authenticate ran for them (transport encryption at that time: %q)", ps, pc, e.Enc)
-			}
-		}
-	}
+	judgeGluedCleartext(c, obs, o, "C09/cleartext-acted-upon-after-tls-confirmation")
 	// a choice outside the offer must be answered with failed (when a negotiation stage was open)
 	if negotiated {
 		for i := range c.Script {
@@ -215,6 +193,33 @@ func TestC09Script(t *testing.T) {
 	rec.Note("exhaustive", "true")
 }
 
+// judgeGluedCleartext: cleartext glued behind the choice that switched the connection to tls must not be acted upon -
+// everything after the confirmation travels under the negotiated encryption, and credentials that only ever travelled in the
+// clear are not accepted.
+func judgeGluedCleartext(c *SrvCase, obs *SrvObs, o *Outcome, sig string) {
+	m := RunServerModel(c, observedNegotiation(obs))
+	for _, gi := range m.GluedDropped {
+		o.Class("cleartext-glued-to-tls-choice")
+		o.NonTrivial = true
+		g := &c.Script[gi]
+		ps, pc := presented(g)
+		laterSame := false
+		for j := gi + 1; j < len(c.Script); j++ {
+			if qs, qc := presented(&c.Script[j]); c.Script[j].Kind == "session" && c.Script[j].State == "authenticating" && qs == ps && qc == pc {
+				laterSame = true // the same credentials also travel under TLS later: a callback for them proves nothing
+			}
+		}
+		if laterSame || !obs.PeerTLS {
+			continue
+		}
+		for _, e := range obs.Log {
+			if e.Call == "auth" && e.Scheme == ps && e.Cred == pc {
+				o.Fail(sig, "the peer wrote credentials (%s,%q) in cleartext in the same write as its choice of tls and never sent them under TLS, yet Authenticate ran for them (transport encryption at that time: %q)", ps, pc, e.Enc)
+			}
+		}
+	}
+}
+
 const credMarker = "Q1JFREVOVElBTC1NQVJLRVI" // base64-looking marker used as the client's secret
 
 func judgeC09Pair(c *PairCase, obs *PairObs, o *Outcome) {
@@ -304,6 +309,11 @@ func TestC09Pair(t *testing.T) {
 						c := &PairCase{Srv: cfg2, CliEnc: cliEnc, CliComp: cliComp, CliScheme: sch, CliCred: credMarker, CliTLS: cliTLS}
 						if sch == "guest" {
 							c.CliCred = ""
+						}
+						// trace writers (another reader / writer chain under the TLS upgrade) spread over the combinations
+						c.Trace = []string{"", "server", "client", "both"}[n%4]
+						if cfg.Transport == "inproc" {
+							c.Trace = ""
 						}
 						o := &Outcome{}
 						o.Class("transport=" + cfg.Transport)
